@@ -3,17 +3,48 @@ From CG3 Require Import Lib.PyZ Lib.Val Model.GeneticCode Spec.GeneticCodeSpec P
   Proofs.GeneticCodeDegenDefs Proofs.GeneticCodeCollProofs Proofs.GeneticCodeDegenA Proofs.GeneticCodeDegenB.
 From CG3gen Require Import GCTables.
 
-Lemma degenerate_codon_lemma id aa st a b c ok inc :
-  In (id, aa, st) new_codes -> In a iupac_syms -> In b iupac_syms -> In c iupac_syms ->
-  ropt (old_codon aa ok inc [a; b; c]) = degenerate_codon_spec (ncbi_tbl id) inc [a; b; c].
+Lemma domain_no_gap w : In w (degen_domain ++ product3 iupac_syms) -> has_gap w = false.
 Proof.
-  intros Hin Ha Hb Hc.
-  assert (E : old_codon aa ok inc [a; b; c] = old_codon aa false inc [a; b; c]).
-  { destruct ok; [|reflexivity]. apply old_codon_ok_irrelevant, iupac_syms_no_gap; assumption. }
-  rewrite E.
+  assert (E : forallb (fun u => negb (has_gap u)) (degen_domain ++ product3 iupac_syms) = true) by (vm_compute; reflexivity).
+  rewrite forallb_forall in E. intros H. specialize (E w H). destruct (has_gap w); [discriminate|reflexivity].
+Qed.
+
+Lemma ok_false aa ok inc w : has_gap w = false -> old_codon aa ok inc w = old_codon aa false inc w.
+Proof. intros H. destruct ok; [|reflexivity]. apply old_codon_ok_irrelevant, H. Qed.
+
+Lemma degenerate_codon_lemma id aa st w ok inc :
+  In (id, aa, st) new_codes -> In w degen_domain ->
+  ropt (old_codon aa ok inc w) = degenerate_codon_spec (ncbi_tbl id) inc w.
+Proof.
+  intros Hin Hw. rewrite (ok_false aa ok inc w) by (apply domain_no_gap, in_or_app; left; exact Hw).
   assert (H : forallb (degenerate_check inc) new_codes = true)
     by (destruct inc; [exact degenerate_checked_true|exact degenerate_checked_false]).
-  rewrite forallb_forall in H. specialize (H _ Hin). unfold degenerate_check in H. cbn [fst snd] in H.
-  rewrite forallb_forall in H. specialize (H [a; b; c] (In_product3 _ a b c Ha Hb Hc)).
-  apply option_Z_eqb_sound, H.
+  rewrite forallb_forall in H. specialize (H _ Hin). unfold degenerate_check, degenerate_check_on in H.
+  cbn [fst snd] in H. rewrite forallb_forall in H. apply option_Z_eqb_sound, (H w Hw).
+Qed.
+
+(** the first code of the table (the standard code): all 15^3 codons *)
+Lemma degenerate_codon_first_code_lemma a b c ok inc :
+  In a iupac_syms -> In b iupac_syms -> In c iupac_syms ->
+  ropt (old_codon (snd (fst first_code)) ok inc [a; b; c])
+  = degenerate_codon_spec (ncbi_tbl (fst (fst first_code))) inc [a; b; c].
+Proof.
+  intros Ha Hb Hc. pose proof (In_product3 _ a b c Ha Hb Hc) as Hw.
+  rewrite (ok_false _ ok inc [a; b; c]) by (apply domain_no_gap, in_or_app; right; exact Hw).
+  assert (H : degenerate_check_on (product3 iupac_syms) inc first_code = true)
+    by (destruct inc; [exact degenerate_first_code_checked_true|exact degenerate_first_code_checked_false]).
+  unfold degenerate_check_on in H. rewrite forallb_forall in H. apply option_Z_eqb_sound, (H _ Hw).
+Qed.
+
+Lemma In_by_eqb (w : str) l : existsb (str_eqb w) l = true -> In w l.
+Proof.
+  intros H. apply existsb_exists in H. destruct H as (u & Hu & E). apply str_eqb_eq in E. subst u. exact Hu.
+Qed.
+
+Example degen_domain_instances :
+  In [82; 65; 89] degen_domain /\ In [65; 65; 66] degen_domain /\ In [78; 78; 78] degen_domain
+  /\ In first_code new_codes /\ length degen_domain = 1063%nat.
+Proof.
+  split; [apply In_by_eqb; reflexivity|]. split; [apply In_by_eqb; reflexivity|].
+  split; [apply In_by_eqb; reflexivity|]. split; [apply hd_In; reflexivity|reflexivity].
 Qed.
